@@ -9,6 +9,8 @@ The payload is given to the translation as its bytes (`internal.Payload` = the c
 with a constructor and `interpW` hands its arguments to the model's `Writer.compressData`.  `MaskXOR` is used by its
 specification (`goMaskXOR`), which C18 proves of the implementation.
 -/
+set_option linter.unusedSimpArgs false
+
 namespace TransEquiv
 
 inductive GenOut where
@@ -77,12 +79,8 @@ theorem genFrame_eq (cfg : Writer.Cfg) (codec : Codec) (cps : Win) (opcode : UIn
   have hce : Trans.internal_CheckEncoding fc.checkEncoding opcode payload.flatten
       = Utf8.buffersCheck fc.checkEncoding opcode.toNat payload := by
     rw [CheckEncoding_eq]; unfold Utf8.checkEncoding Utf8.buffersCheck; rw [Utf8.validJoined_eq]
-  have hc1 : ((opcode == (1 : UInt8)) && !(Trans.internal_CheckEncoding fc.checkEncoding opcode payload.flatten))
-      = decide (opcode.toNat = Facts.opText ∧ Utf8.buffersCheck fc.checkEncoding opcode.toNat payload = false) := by
-    rw [hce, u8_beq]
-    have h1 : (1 : UInt8).toNat = 1 := rfl
-    rw [h1, Facts.opText]
-    cases Utf8.buffersCheck fc.checkEncoding opcode.toNat payload <;> simp
+  have e1 : (opcode == (1 : UInt8)) = decide (opcode.toNat = Facts.opText) := by
+    rw [u8_beq]; rfl
   have hc2 : decide ((Int.ofNat payload.flatten.length) > (cfg.writeMax : Int)) = decide (payload.flatten.length > cfg.writeMax) := by
     rw [Int.ofNat_eq_natCast]; congr 1; apply propext; constructor <;> intro h <;> omega
   have hc3 : ((fc.compress && Trans.Opcode_isDataFrame opcode) && decide ((Int.ofNat payload.flatten.length) ≥ (cfg.threshold : Int)))
@@ -91,15 +89,21 @@ theorem genFrame_eq (cfg : Writer.Cfg) (codec : Codec) (cps : Win) (opcode : UIn
     rw [isDataFrame_eq]
     rw [Int.ofNat_eq_natCast]; congr 2; apply propext; constructor <;> intro h <;> omega
   unfold Trans.Conn_genFrame Writer.genFrame
-  simp only [hc1, hc2, hc3, decide_eq_true_eq]
-  split
-  · rfl
-  split
-  · rfl
-  split
-  · simp only [interpW]
-    rfl
-  · simp only [interpW]
+  -- the four things the function decides on, as the model spells them; after that both sides are reduced with these
+  -- facts, so the proof does not depend on how the code nests or names its conditions
+  simp only [e1, hce, hc2, hc3, decide_eq_true_eq, Bool.and_eq_true, Bool.not_eq_true', Bool.not_eq_true]
+  have ht' : (opcode.toNat = Facts.opText) = True ∨ (opcode.toNat = Facts.opText) = False := by
+    by_cases ht : opcode.toNat = Facts.opText
+    · exact Or.inl (eq_true ht)
+    · exact Or.inr (eq_false ht)
+  rcases ht' with ht | ht <;>
+  cases hb : Utf8.buffersCheck fc.checkEncoding opcode.toNat payload <;>
+  by_cases hm : payload.flatten.length > cfg.writeMax <;>
+  cases hw : Writer.willCompress cfg fc opcode.toNat payload.flatten.length <;>
+  simp only [ht, hb, hm, hw, and_true, and_false, true_and, false_and, if_true, if_false, ↓reduceIte, not_true_eq_false, not_false_eq_true,
+    Bool.false_eq_true, decide_true, decide_false, Bool.true_eq_false, interpW, reduceCtorEq] <;>
+  (try rfl)
+  all_goals (
     have hn : payload.flatten.length < 2 ^ 63 := by omega
     obtain ⟨hg1, hg2⟩ := GenerateHeader_eq cfg.isServer fc.fin false opcode payload.flatten.length hn maskNum
     have hg3 := GenerateHeader_len cfg.isServer fc.fin false opcode payload.flatten.length hn maskNum
@@ -120,11 +124,12 @@ theorem genFrame_eq (cfg : Writer.Cfg) (codec : Codec) (cps : Win) (opcode : UIn
     have ht : List.take 14 (List.replicate 14 (0 : UInt8) ++ payload.flatten) = List.replicate 14 0 := by
       rw [List.take_append]; simp
     rw [hd, ht]
-    cases cfg.isServer
-    · simp only [Bool.not_false, if_true, Bool.false_eq_true, if_false]
-      rw [maskXOR_eq]
-      congr 2
-      exact goCopy_tail (List.replicate 14 0) payload.flatten _ 14 rfl (by simp)
-    · rfl
+    cases cfg.isServer <;>
+      simp only [Bool.not_false, Bool.not_true, if_true, if_false, Bool.false_eq_true, Bool.true_eq_false, ↓reduceIte]
+    all_goals first
+      | rfl
+      | (rw [maskXOR_eq]
+         congr 2
+         exact goCopy_tail (List.replicate 14 0) payload.flatten _ 14 rfl (by simp)))
 
 end TransEquiv
